@@ -70,7 +70,36 @@ def check_form(run, form, result, parallel=False, tag=""):
         run.units["none-block"] += 1
     if bool(parallel):
         run.units["parallel-einsum"] += 1
-    run.compare(mon, key, maxabs(got - ref) / scale, 1e4 * eps,
+    # every block of a mixed form is judged against its own size (the blocks of a u/p/J form differ by powers of the length unit: with one
+    # number for the whole matrix a dropped p-p block of a micrometre-sized body is below the tolerance set by the u-u block - third audit).
+    # Floor of a block's size: a thousandth of the geometric mean of its two diagonal blocks (matrices), resp. of the sum of the absolute
+    # terms (vectors), so that a block that vanishes by cancellation is not judged against its own round-off.
+    sizes_v = [f.region.mesh.npoints * f.dim for f in form.v]
+    off_v = np.concatenate([[0], np.cumsum(sizes_v)]).astype(int)
+    worst = maxabs(got - ref) / scale
+    if len(sizes_v) > 1 and got.shape[0] == off_v[-1]:
+        if form.u is None:
+            for k, (f_, v_, g_) in enumerate(zip(fun, form.v, grad_v)):
+                gb, rb = got[off_v[k]: off_v[k + 1]], ref[off_v[k]: off_v[k + 1]]
+                nat = 0.0
+                if f_ is not None:
+                    basis = v_.region.dhdX if g_ else v_.region.h
+                    nat = 8.0 * maxabs(np.asarray(f_)) * maxabs(basis) * maxabs(np.asarray(dV).sum(0))
+                worst = max(worst, maxabs(gb - rb) / max(maxabs(rb), 1e-3 * nat, 1e-300))
+        else:
+            sizes_u = [f.region.mesh.npoints * f.dim for f in form.u]
+            off_u = np.concatenate([[0], np.cumsum(sizes_u)]).astype(int)
+            if got.shape[1] == off_u[-1]:
+                diag = [maxabs(ref[off_v[k]: off_v[k + 1], off_u[k]: off_u[k + 1]]) if k < len(sizes_u) else 0.0 for k in range(len(sizes_v))]
+                for i in range(len(sizes_v)):
+                    for j in range(len(sizes_u)):
+                        gb, rb = got[off_v[i]: off_v[i + 1], off_u[j]: off_u[j + 1]], ref[off_v[i]: off_v[i + 1], off_u[j]: off_u[j + 1]]
+                        if maxabs(rb) == 0.0 and maxabs(gb) == 0.0:
+                            continue
+                        floor = 1e-3 * np.sqrt(diag[i] * diag[j]) if (j < len(diag) and diag[i] > 0 and diag[j] > 0) else 1e-9 * scale
+                        worst = max(worst, maxabs(gb - rb) / max(maxabs(rb), floor, 1e-300))
+        run.units["judged-block-wise"] += 1
+    run.compare(mon, key, worst, 1e4 * eps,
                 "assembled entries differ from the defining sum over cells, quadrature points, shape functions and components",
                 unit="assemble:" + desc + (" parallel" if parallel else ""), config=desc + tag + (" parallel" if parallel else ""),
                 sample={"form": desc, "shape": list(got.shape), "loop_steps": int(steps), "max_abs_entry": scale,
